@@ -311,7 +311,9 @@ def check(rep, tier, seed):
     w_act = ctx.method("KeyKeeperSharedState", "start_new")
     act_body = w_act + "::{closure#0}"
     if act_body in ctx.idx.files:
-        A.unit("KeyKeeperSharedState actor loop", act_body, engine=ctx.engine(loop_bound=1, max_paths=8000, timeout=300, summaries=SUMMARIES))
+        eng_act = ctx.engine(loop_bound=1, max_paths=8000, timeout=300, summaries=SUMMARIES)
+        eng_act.auto_inline = ctx.new_function_auto()          # arm bodies moved into helpers are part of the actor unit
+        A.unit("KeyKeeperSharedState actor loop", act_body, engine=eng_act)
 
     # ---- U8 KeyKeeper::loop_poll, key section (fetch / acquire / store / check / attest / publish), store helpers inlined ----
     import p_c08
@@ -366,6 +368,9 @@ def check(rep, tier, seed):
 
     # ---- completeness: every non-test function whose MIR mentions a Key-typed local is one of the analysed units ----
     analysed = set(seen_units) | analysed_bodies | {act_body, w_act, w_upd + "::{closure#0}", w_set + "::{closure#0}", w_set, w_upd} | {p_sig, p_rrb, p_br, w_get + "::{closure#0}", w_acq + "::{closure#0}", w_att + "::{closure#0}"} | set(eng8.inlined)
+    import mcommon
+    for _c, _e in mcommon.ALL_ENGINES:
+        analysed |= set(getattr(_e, "inlined", ()))          # a helper inlined into an analysed unit was analysed as part of it
     key_users = []
     for p in ctx.idx.files:
         try:
